@@ -179,6 +179,8 @@ for _k, _v in _ADDENDA6.items():
 _ADDENDA7 = {
     "C02": " Sources in which one name / keyword-like token occurs at many places (nodes are never shared between occurrences).",
     "C07": " Whole-number floats at and beyond the 32-bit edges through variables at 8 Int positions (int_whole_floats).",
+    "C10": " Completion-time failures on the deferred runtimes under every completion order are answered like the blocking executor (deferred_containment).",
+    "C12": " Directives on definitions and on their extensions under repeated printing.",
     "C13": " An object implementing two interfaces that declare the same field: messages for the pair == union of the messages for each alone (two_interfaces).",
     "C15": " Type references with up to 7 wrappers read back from the standard introspection query (deep_wrappers).",
     "C20": " Several unions sharing members: every single / double membership flip (multi_unions).",
